@@ -159,3 +159,10 @@ Example C14_nonvacuous_case :
   agree fl_fixed demo_case = true /\ spec_ok demo_case = true /\ agree fl_current demo_case = false
   /\ List.length (o_pairs demo_case) = 2%nat.
 Proof. vm_compute. repeat split. Qed.
+
+(** on the entity alphabet of the driver the write-time equality is the same under every setting of the data-layer
+    flags: the C14 correspondence does not depend on the repairs of F01a / F02b *)
+Theorem C14_alphabet_flag_free : forall fl v t d v' t' d',
+  content_eqb fl (mkc v t d) (mkc v' t' d') = identical (mkc v t d) (mkc v' t' d').
+Proof. exact mkc_eqb_flag_free. Qed.
+Print Assumptions C14_alphabet_flag_free.
